@@ -24,8 +24,8 @@ type C19Params struct {
 	// EarlyState: the application also reads ConnectionState() (and the exporter) right after the
 	// handshake and again after half of the pre-export records, as one does for keying material;
 	// the state that is serialised later must still be the state at that later moment
-	EarlyState bool `json:"early_state,omitempty"`
-	Enum     string `json:"enum,omitempty"`
+	EarlyState bool   `json:"early_state,omitempty"`
+	Enum       string `json:"enum,omitempty"`
 }
 
 // mirror of the serialised form (gob matches by field name)
